@@ -610,6 +610,28 @@ var c08Corpus = []string{
 	"x = #!/bin/lua", "a = 'a\\z'", "a = '\\x41'", "a = \"\\u{41}\"", "x = 1 -- c", "x = 1 --", "x = 1 -", "return - - 1", "return ---1\n", "return -\n-1",
 }
 
+// c08StmtForms: every expression form × every way of putting it where a statement is expected × block context —
+// most are syntax errors, some are valid calls/assignments; each must end in a function or an error, never a panic
+// (the parser's `stat: prefixexp` action and the compiler's statement switch have a case per node type).
+func c08StmtForms() []string {
+	exprs := []string{"1", "'x'", "nil", "true", "...", "{}", "function() end", "a", "a.b", "a[1]", "a + b", "a or b", "not a", "-a", "#a",
+		"a .. b", "a == b", "f()", "a:m()", "f{}", "f''", "(a)", "((a))", "[[s]]", "0x10", "a and f()", "f().x", "f()[1]"}
+	wraps := []string{"%s", "(%s)", "((%s))", "(%s)()", "(%s).x", "(%s).x = 1", "(%s)[1] = 2", "(%s):m()", "(%s) = 1", "%s = 1", "%s, %s = 1, 2",
+		"(%s), a = 1, 2", "local x = (%s) (%s)", "(%s) 'lit'", "(%s) {}"}
+	ctxs := []string{"%s", "do %s end", "function g(...) %s end", "local function g(...) %s end", "if a then %s end", "if a then else %s end", "while a do %s end",
+		"repeat %s until a", "for i = 1, 2 do %s end", "for k in f() do %s end", "%s ; %s", "%s %s", "::l:: %s goto l", "return function(...) %s end"}
+	var out []string
+	for _, e := range exprs {
+		for _, w := range wraps {
+			st := strings.ReplaceAll(w, "%s", e)
+			for _, c := range ctxs {
+				out = append(out, strings.ReplaceAll(c, "%s", st))
+			}
+		}
+	}
+	return out
+}
+
 func init() { props["C08"] = runC08 }
 
 func runC08(run *Run) {
@@ -619,7 +641,7 @@ func runC08(run *Run) {
 		nBytes, nSoup, nMut, nProg, nTrunc, nNum, nFile = 150000, 150000, 120000, 6000, 300, 40000, 3000
 		deepSizes = []int{10, 199, 250, 2000, 10000}
 	}
-	run.Rule = "inputs: random bytes, token soup (valid and malformed lexemes incl. every blank/line-end/comment form), generated valid programs in 13 layouts each (canonical, minimal-separator, CRLF, CR, LFCR, random blanks+comments+semicolons, redundant parentheses, alternative literal spellings, all combined, and the two-byte-line-end layouts shifted so that a CR LF / LF CR pair straddles the scanner's 4096-byte read-ahead buffer), byte-level mutations and truncations of those, every prefix of selected programs, numerals, nesting up to depth 10^4 (thorough; 2000 quick), LoadFile with '#' first lines, the repository's .lua files. Each input: real LoadString under recover+timeout (panic/timeout = violation), real token stream vs the Lean scanner model (exact incl. line/column/PNewLine/error), vs the Lua 5.1 lexical grammar (Spec); layouts of one program: instruction-identical protos modulo line tables and identical emit traces (Impl vs Impl). distinct = distinct op-kind skeletons of cases with >= 3 ops"
+	run.Rule = "inputs: random bytes, token soup (valid and malformed lexemes incl. every blank/line-end/comment form), generated valid programs in 13 layouts each (canonical, minimal-separator, CRLF, CR, LFCR, random blanks+comments+semicolons, redundant parentheses, alternative literal spellings, all combined, and the two-byte-line-end layouts shifted so that a CR LF / LF CR pair straddles the scanner's 4096-byte read-ahead buffer), byte-level mutations and truncations of those, every prefix of selected programs, 5880 statement forms (expression form × statement wrapper × block context), numerals, nesting up to depth 10^4 (thorough; 2000 quick), LoadFile with '#' first lines, the repository's .lua files. Each input: real LoadString under recover+timeout (panic/timeout = violation), real token stream vs the Lean scanner model (exact incl. line/column/PNewLine/error), vs the Lua 5.1 lexical grammar (Spec); layouts of one program: instruction-identical protos modulo line tables and identical emit traces (Impl vs Impl). distinct = distinct op-kind skeletons of cases with >= 3 ops"
 	run.Assume = []string{
 		"bufio.Reader: ReadByte/UnreadByte deliver the bytes of the input in order (modelled as a list of bytes)",
 		"the goyacc table driver and the compiler are not modelled: their outcome is observed on the real code only (panic/timeout detection, layout invariance Impl vs Impl)",
@@ -644,6 +666,11 @@ func runC08(run *Run) {
 	for _, s := range c08Corpus {
 		add([]Op{{Args: []string{"b", hexOrDash([]byte(s))}}}, "builtin")
 	}
+	idx = 100000
+	for _, s := range c08StmtForms() {
+		add([]Op{{Args: []string{"b", hexOrDash([]byte(s))}}}, "stmtform")
+	}
+	idx = len(c08Corpus)
 	idx = 1000
 	for i := 0; i < nBytes; i++ {
 		add(genRandomBytes(root.Fork(uint64(idx))), "bytes")
